@@ -379,9 +379,21 @@ BurstPaidOK(P, ln) ==          \* racing withdrawals never pay more than the wal
           LET owed == prev.acct[w].credit + prev.dep[w] + trials + direct IN
           ln.st.paid[w] - prev.paid[w] <= (IF owed > 0 THEN owed ELSE 0)
 
+\* a balance read while its node is being linked to a wallet (nothing else going on) is the balance before or the
+\* balance after the linking - never a third value (the trial credit neither lost nor counted twice on the way)
+BurstReadsOK(ln) ==
+    LET reqs == ln.a.reqs  rs == ln.r.val  prev == Trace[l - 1].st
+        pure == \A i \in DOMAIN reqs : reqs[i].op \in {"AddAccountNode", "GetNodeBalance"}
+    IN pure => \A i \in DOMAIN reqs :
+                 reqs[i].op = "GetNodeBalance" /\ Has(prev.bal, reqs[i].id) /\ Has(ln.st.bal, reqs[i].id)
+                    => /\ rs[i].ok
+                       /\ \/ rs[i].val.account = prev.bal[reqs[i].id].account /\ rs[i].val.credit = prev.bal[reqs[i].id].credit
+                          \/ rs[i].val.account = ln.st.bal[reqs[i].id].account /\ rs[i].val.credit = ln.st.bal[reqs[i].id].credit
+
 BurstStep(ln) ==
     LET reqs == ln.a.reqs  rs == ln.r.val  n == Len(reqs)  allcalls == CallSet(ln.st) IN
     /\ ln.op = "Burst"
+    /\ A("reads", "a balance read during account linking is neither the balance before nor the balance after", BurstReadsOK(ln))
     /\ A("nonce", "racing copies of one request were honoured more than once", BurstNonceOK(reqs, rs))
     /\ A("withdraw", "racing withdrawals paid more than the wallet held", F("serial") \/ BurstPaidOK(S, ln))
     /\ A("serial", "nonce decisions of the burst", BurstAuthOK(S, reqs, rs))
